@@ -384,7 +384,7 @@ def run(ctx):
     plans = [('P1-memory', 'P1', False, 3 if q else 4),
              ('P2-memory', 'P2', False, 2 if q else 3),
              ('P1-file_dir', 'P1', True, 2 if q else 3)]
-    budget = ctx.budget or (240 if q else 3000)
+    budget = ctx.budget or (960 if q else 6000)
     share = {'P1-memory': 0.5, 'P2-memory': 0.25, 'P1-file_dir': 0.25}
     for name, pid, fm, depth in plans:
         if not ctx.wants(name):
